@@ -54,7 +54,7 @@ def gen_cases(rng, tier, escalate=False):
     # (1) bounded-exhaustive
     hand = sched04.HAND_SMALL
     n_gen = (40 if quick else 400) * mul
-    budget = 2500 if quick else 20000
+    budget = 4000 if quick else 30000
     for s in hand:
         cases.append(sched04.exhaustive_case(s, ORACLES, codes, budget))
     for k in range(n_gen):
